@@ -313,16 +313,16 @@ Proof.
 Qed.
 
 (** [strip0] with enough fuel removes every trailing zero *)
-Lemma strip0_full : forall fuel d x c y, 0 < d < 2 ^ Z.of_nat fuel ->
+Lemma strip0_full : forall fuel d x c y, 0 < d < 10 ^ Z.of_nat fuel ->
   strip0 fuel d x = (c, y) ->
   exists j, 0 <= j /\ y = x + j /\ d = c * 10 ^ j /\ 0 < c /\ c mod 10 <> 0.
 Proof.
   induction fuel as [|fuel IH]; intros d x c y Hd H.
-  - change (2 ^ Z.of_nat 0) with 1 in Hd. lia.
+  - change (10 ^ Z.of_nat 0) with 1 in Hd. lia.
   - cbn [strip0] in H. destruct ((d mod 10 =? 0) && negb (d =? 0)) eqn:Eb.
     + apply andb_true_iff in Eb. destruct Eb as [Eb _]. apply Z.eqb_eq in Eb.
       pose proof (Z.div_mod d 10 ltac:(lia)) as Hdm. rewrite Eb in Hdm.
-      assert (Hq : 0 < d / 10 < 2 ^ Z.of_nat fuel).
+      assert (Hq : 0 < d / 10 < 10 ^ Z.of_nat fuel).
       { rewrite Nat2Z.inj_succ, Z.pow_succ_r in Hd by lia. lia. }
       destruct (IH (d / 10) (x + 1) c y Hq H) as (j & Hj & Hy & Hc & Hc0 & Hc10).
       exists (j + 1). split; [lia|]. split; [lia|]. split; [|split; assumption].
@@ -331,6 +331,12 @@ Proof.
       split; [lia|]. apply andb_false_iff in Eb. destruct Eb as [Eb|Eb].
       * apply Z.eqb_neq in Eb. exact Eb.
       * apply negb_false_iff, Z.eqb_eq in Eb. lia.
+Qed.
+
+Lemma log2_fuel10 : forall z, 0 < z -> z < 10 ^ Z.of_nat (S (Z.to_nat (Z.log2 z))).
+Proof.
+  intros z Hz. eapply Z.lt_le_trans; [apply log2_fuel; exact Hz|].
+  apply Z.pow_le_mono_l. lia.
 Qed.
 
 (** decomposition d = c * 10^j with c not divisible by 10 is unique *)
@@ -362,7 +368,7 @@ Lemma sigdigits_spec : forall d, 0 < d ->
 Proof.
   intros d Hd. unfold sigdigits, strip_all.
   destruct (strip0 (S (Z.to_nat (Z.log2 d))) d 0) as [c y] eqn:Es.
-  destruct (strip0_full _ d 0 c y (conj Hd (log2_fuel d Hd)) Es) as (j & Hj & _ & Hc & Hc0 & Hc10).
+  destruct (strip0_full _ d 0 c y (conj Hd (log2_fuel10 d Hd)) Es) as (j & Hj & _ & Hc & Hc0 & Hc10).
   cbn [fst]. exists c, j. pose proof (ndigits_spec c Hc0) as [H1 H2]. auto 10.
 Qed.
 
@@ -467,7 +473,7 @@ Proof. reflexivity. Qed.
     and the ceiling were outside. *)
 Lemma shortest_from_inv : forall fuel n lo mid hi den incl E d x,
   shortest_from fuel n lo mid hi den incl E = Some (d, x) ->
-  exists n', n <= n' /\ x = - (n' - 1 - E) /\
+  exists n', n <= n' < n + Z.of_nat fuel /\ x = - (n' - 1 - E) /\
     (d = sf_dfl mid den E n' \/ d = sf_dfl mid den E n' + 1) /\
     in_interval lo hi den incl d x = true /\
     forall k, n <= k < n' ->
@@ -531,6 +537,45 @@ Proof.
   - rewrite fr_lt, Z.ltb_lt by lia. lia.
 Qed.
 
+(** with E = floor(log10 v), the floor of v*10^(n-1-E) has exactly n digits *)
+Lemma sf_dfl_bounds : forall mid den E n, 0 < den ->
+  (q10 E <= fr mid den)%Q -> (fr mid den < q10 (E + 1))%Q -> 1 <= n ->
+  10 ^ (n - 1) <= sf_dfl mid den E n < 10 ^ n.
+Proof.
+  intros mid den E n Hden HE1 HE2 Hn.
+  set (v := fr mid den) in *.
+  destruct (floor_Q mid den E n Hden) as [F1 F2]. cbv zeta in F1, F2. fold v in F1, F2.
+  set (dfl := sf_dfl mid den E n) in *. set (s := n - 1 - E) in *.
+  pose proof (q10_pos s) as Hs.
+  split.
+  - assert (L : (inject_Z (10 ^ (n - 1)) < inject_Z (dfl + 1))%Q).
+    { apply Qle_lt_trans with (v * q10 s)%Q; [|exact F2].
+      rewrite <- q10_nonneg_Z by lia. replace (n - 1) with (E + s) by (unfold s; lia).
+      rewrite q10_add. apply Qmult_le_compat_r; [exact HE1|lra]. }
+    rewrite <- Zlt_Qlt in L. lia.
+  - assert (L : (inject_Z dfl < inject_Z (10 ^ n))%Q).
+    { apply Qle_lt_trans with (v * q10 s)%Q; [exact F1|].
+      rewrite <- q10_nonneg_Z by lia.
+      assert (En : (q10 n == q10 (E + 1) * q10 s)%Q).
+      { rewrite <- q10_add. replace (E + 1 + s) with n by (unfold s; lia). reflexivity. }
+      rewrite En. apply Qmult_lt_compat_r; [exact Hs|exact HE2]. }
+    rewrite <- Zlt_Qlt in L. exact L.
+Qed.
+
+(** the digits found by a search with [fuel] steps from one digit are at most 10^fuel *)
+Lemma shortest_from_digits_bound : forall fuel n lo mid hi den incl E d x, 0 < den -> 1 <= n ->
+  (q10 E <= fr mid den)%Q -> (fr mid den < q10 (E + 1))%Q ->
+  shortest_from fuel n lo mid hi den incl E = Some (d, x) ->
+  0 < d <= 10 ^ (n + Z.of_nat fuel - 1).
+Proof.
+  intros fuel n lo mid hi den incl E d x Hden Hn1 HE1 HE2 H.
+  destruct (shortest_from_inv _ _ _ _ _ _ _ _ _ _ H) as (n' & Hn & _ & Hd & _ & _).
+  destruct (sf_dfl_bounds mid den E n' Hden HE1 HE2 ltac:(lia)) as [B1 B2].
+  pose proof (pow10_gt0 (n' - 1) ltac:(lia)) as Hp.
+  assert (Hle : 10 ^ n' <= 10 ^ (n + Z.of_nat fuel - 1)) by (apply Z.pow_le_mono_r; lia).
+  destruct Hd as [->| ->]; lia.
+Qed.
+
 (** Rational form of the main theorem. *)
 Lemma shortest_from_minimal_Q : forall fuel lo mid hi den incl E d x,
   0 < den -> lo < mid < hi ->
@@ -544,24 +589,8 @@ Proof.
   set (v := fr mid den) in *.
   assert (Hv : inI (fr lo den) (fr hi den) incl v).
   { unfold inI, v. destruct incl; rewrite ?fr_le, ?fr_lt by lia; nia. }
-  (* the digits tried at n: 10^(n-1) <= dfl < 10^n *)
-  destruct (floor_Q mid den E n Hden) as [F1 F2]. cbv zeta in F1, F2. fold v in F1, F2.
-  set (dfl := sf_dfl mid den E n) in *. set (s := n - 1 - E) in *.
-  pose proof (q10_pos s) as Hs.
-  assert (B1 : 10 ^ (n - 1) <= dfl).
-  { assert (L : (inject_Z (10 ^ (n - 1)) < inject_Z (dfl + 1))%Q).
-    { apply Qle_lt_trans with (v * q10 s)%Q; [|exact F2].
-      rewrite <- q10_nonneg_Z by lia. replace (n - 1) with (E + s) by (unfold s; lia).
-      rewrite q10_add. apply Qmult_le_compat_r; [exact HE1|lra]. }
-    rewrite <- Zlt_Qlt in L. lia. }
-  assert (B2 : dfl < 10 ^ n).
-  { assert (L : (inject_Z dfl < inject_Z (10 ^ n))%Q).
-    { apply Qle_lt_trans with (v * q10 s)%Q; [exact F1|].
-      rewrite <- q10_nonneg_Z by lia.
-      assert (En : (q10 n == q10 (E + 1) * q10 s)%Q).
-      { rewrite <- q10_add. replace (E + 1 + s) with n by (unfold s; lia). reflexivity. }
-      rewrite En. apply Qmult_lt_compat_r; [exact Hs|exact HE2]. }
-    rewrite <- Zlt_Qlt in L. exact L. }
+  destruct (sf_dfl_bounds mid den E n Hden HE1 HE2 ltac:(lia)) as [B1 B2]. fold v in HE1, HE2.
+  set (dfl := sf_dfl mid den E n) in *.
   pose proof (pow10_gt0 (n - 1) ltac:(lia)) as Hp.
   assert (Hd0 : 0 < d <= 10 ^ n) by (destruct Hd as [->| ->]; lia).
   split; [lia|]. split; [exact Hin|].
@@ -776,6 +805,9 @@ Proof.
     destruct (Pos.eqb m 4503599627370496 && negb (e =? -1074))%bool; repeat split; lia.
 Qed.
 
+Lemma Some_inj : forall (A : Type) (a b : A), Some a = Some b -> a = b.
+Proof. intros A a b H. congruence. Qed.
+
 (** Level 1 for a double m * 2^e: the candidate digits are inside the rounding interval
     and no decimal inside it has fewer significant digits. *)
 Theorem shortest_candidate_minimal : forall m e d x,
@@ -793,7 +825,7 @@ Proof.
   destruct HI as (Hden & Hord & _ & Hmid & _).
   set (E := log10_floor p q) in *.
   destruct (shortest_from 18 1 lo mid hi den incl E) as [[d0 x0]|] eqn:Es; [|discriminate].
-  inversion H as [Hs]. clear H.
+  pose proof (Some_inj _ _ _ H) as Hs. clear H.
   assert (Ev : (fr mid den == fr p q)%Q) by (apply fr_eq; assumption).
   apply (le10b_Q _ _ _ Hq) in L1. apply (lt10b_Q _ _ _ Hq) in L2.
   rewrite <- Ev in L1, L2.
